@@ -222,11 +222,24 @@ func (m *Manager) registerConnection(conn *Connection) {
 
 // handleDisconnect is called when a connection is closed.
 func (m *Manager) handleDisconnect(conn *Connection, err error) {
+	// readLoop and keepaliveLoop both report the same dead connection (closing
+	// it from one loop makes the other one fail too). Only the first report
+	// tears the connection down; a late second report must not clean up state
+	// that a reconnect has rebuilt for the same peer ID in the meantime.
+	if !conn.tornDown.CompareAndSwap(false, true) {
+		return
+	}
+
 	m.mu.Lock()
 	// Remove from peers map if this is still the active connection
-	if existing, ok := m.peers[conn.RemoteID]; ok && existing == conn {
+	existing, ok := m.peers[conn.RemoteID]
+	if ok && existing == conn {
 		delete(m.peers, conn.RemoteID)
 	}
+	// Another connection to the same peer has already taken over (e.g. a
+	// reconnect right after Disconnect/DisconnectAll removed this one): the
+	// per-peer routes and relays now belong to that connection.
+	superseded := ok && existing != conn
 
 	// Find the peer info using the config address (original dial address).
 	// This is necessary because RemoteAddr() returns the resolved IP,
@@ -239,7 +252,7 @@ func (m *Manager) handleDisconnect(conn *Connection, err error) {
 	m.mu.Unlock()
 
 	// Notify callback
-	if m.cfg.OnPeerDisconnect != nil {
+	if m.cfg.OnPeerDisconnect != nil && !superseded {
 		m.cfg.OnPeerDisconnect(conn, err)
 	}
 
